@@ -25,7 +25,7 @@ ASSUMPTIONS = [
     "shared directories are created in the prologue and never removed), so the per-handle-order-respecting "
     "sequentialisations all give each worker the results of its own stream run alone",
     "a saved manifest is judged through its loaded contents (C09/C10 own the text format)",
-    "the deadlock detector is a deadline (40 s per det case, 45 s for the workers of a free case); in det mode a throttle slot still taken 4 s after every non-parked PutB has returned counts as leaked",
+    "deadlock detector: free mode reports a deadlock when no worker has started or finished an operation for 3 s AND every goroutine of the package is parked on a mutex/channel/WaitGroup (two goroutine dumps 50 ms apart), or after 150 s; det mode has a 60 s deadline per event; in det mode a throttle slot counts as leaked when it is still taken although every non-parked PutB has returned and every goroutine of the package is parked (or after 8 s)",
 ]
 TRUSTED = ["executable MD5 in Lean (locators of flushed blocks), compared with Go crypto/md5 through the shapes",
            "the Keep stub of the Go driver (parks / delays / fails PutB, snapshots the buffer on entry and compares "
@@ -433,6 +433,22 @@ def oracle_det(case, impl):
                 return "event %d: completion reported %s" % (i, res)
             continue
         op = ev[ev.index(".") + 1:]
+        if op.startswith("psave,"):
+            # a save with one failing and several slow block writes, and another worker's op issued
+            # meanwhile: the save part first (it may fail), then the op
+            sres, _, ores = res.partition("&")
+            if sres.startswith("ok="):
+                snap = parse_snap(sres[3:])
+                if snap is None:
+                    return "event %d: the saved manifest does not load cleanly (%s)" % (i, sres[3:])
+                if snap != fs.snapshot():
+                    return "event %d: saved manifest differs from the files' contents at the save point" % i
+            op2 = op.split(",", 3)[3]
+            op2 = op2[op2.index(".") + 1:]
+            why = judge(fs, op2, ores)
+            if why:
+                return "event %d (%s): %s" % (i, ev[:60], why)
+            continue
         if op.startswith("save,"):
             fail = op.split(",")[2] == "1"
             if res.startswith("ok="):
@@ -616,6 +632,9 @@ def compare(case, impl, model):
             if not ev.startswith("c,") and ev[ev.index(".") + 1:].startswith("save,") and ev.split(",")[2] == "1":
                 failing_save = i
                 break
+            if not ev.startswith("c,") and ev[ev.index(".") + 1:].startswith("psave,"):
+                failing_save = i
+                break
         if failing_save is None:
             return body == model
         # a failing MarshalManifest marks a nondeterministic subset of the segments (the first PutB
@@ -632,6 +651,11 @@ def compare(case, impl, model):
         # single Read call returns; the oracle judges every snapshot and read against the plain
         # model anyway)
         def norm(i, t):
+            if not evs[i].startswith("c,") and evs[i][evs[i].index(".") + 1:].startswith("psave,"):
+                # "<save result>&<op result>": the op's result without decorations; whether the save
+                # had anything left to write depends on the shapes once they have diverged
+                a_, _, b_ = t.partition("&")
+                return ("save" if i > failing_save else head_of(a_)) + "&" + ("read" if ".read," in evs[i] else head_of(b_))
             h = head_of(t)
             if i > failing_save and not evs[i].startswith("c,") and evs[i][evs[i].index(".") + 1:].startswith("save,") \
                     and evs[i].split(",")[2] == "1":
@@ -772,6 +796,24 @@ def gen_det(rng, tier, maxb=None, nev=None):
             emit(w, "flush,%s,%d" % (p, rng.randint(0, 1)))
             continue
         if r < p_complete + 0.08:
+            if rng.random() < 0.4 and nw >= 2:
+                # one block write of the save fails while the others are slow, and another worker
+                # overwrites / truncates one of its files meanwhile
+                w2 = rng.choice([x for x in range(nw) if x != w])
+                hs2 = [h for h in hs_of[w2] if str(h) in fs.h and not fs.h[str(h)].ino.is_dir and fs.h[str(h)].wr]
+                if hs2:
+                    h2 = rng.choice(hs2)
+                    size2 = len(fs.h[str(h2)].ino.data)
+                    q2 = rng.random()
+                    if q2 < 0.6:
+                        op2 = "write,%d,%s" % (h2, data.take(max(1, _wsize(rng, lim))).hex())
+                    elif q2 < 0.85:
+                        op2 = "trunc,%d,%d" % (h2, _tsize(rng, lim, size2))
+                    else:
+                        op2 = "seek,%d,0,0" % h2
+                    evs.append("%d.psave,%d,%s,%d.%s" % (w, (1 << 30) - 1, rng.choice("mms"), w2, op2))
+                    _sim(fs, op2)
+                    continue
             evs.append("%d.save,%d,%d,%s" % (w, rng.getrandbits(30) | (0 if rng.random() < 0.5 else (1 << 30) - 1),
                                              1 if rng.random() < 0.15 else 0, rng.choice("mms")))
             continue
@@ -933,7 +975,7 @@ def gen_free(rng, tier, maxb=None):
 
 def generate(rng, tier):
     cases = []
-    ndet, nfree = (420, 110) if tier == "quick" else (12000, 3000)
+    ndet, nfree = (380, 100) if tier == "quick" else (9000, 2200)
     for _ in range(ndet):
         cases.append(gen_det(rng, tier))
     for _ in range(nfree):
@@ -966,6 +1008,8 @@ def describe(cases, impl):
                         d["completions_noop_event"] += 1
                 elif ".flush," in e:
                     d["async_flush_events"] += 1
+                elif ".psave," in e:
+                    d["partial_failure_saves"] = d.get("partial_failure_saves", 0) + 1
                 elif ".save," in e:
                     d["save_events"] += 1
                     d["failing_saves"] += e.split(",")[2] == "1"
